@@ -6,6 +6,7 @@ self-loops of the bounded model (3 nodes) and seeded random graphs are built
 on the real class; every statistic is called for every node / pair / instant,
 logged as an exact rational and judged by TLC against spec/Stats.tla computed
 from the presence relation and stream observed on the same graph."""
+import numbers
 import random
 from fractions import Fraction
 
@@ -15,11 +16,12 @@ from .runner import Check
 
 
 def _rat(x):
-    if isinstance(x, bool):
+    if core.as_bool(x) is not None:
         return None
-    if isinstance(x, int):
-        return [x, 1]
-    if isinstance(x, float) and x == x and abs(x) != float("inf"):
+    if core.as_int(x) is not None:
+        return [core.as_int(x), 1]
+    if isinstance(x, numbers.Real) and float(x) == float(x) and abs(float(x)) != float("inf"):
+        x = float(x)
         f = Fraction(x).limit_denominator(10 ** 4)
         return [f.numerator, f.denominator]
     return None
@@ -35,14 +37,18 @@ def _entry(es, fn, u, v, t, call, kind, L):
         elif kind == "times":
             e["k"], e["val"] = "times", [L.atime(x) for x in r]
         elif kind == "hist":
-            ok = isinstance(r, dict) and all(isinstance(a, int) and isinstance(b, int) and not isinstance(b, bool) for a, b in r.items())
-            e["k"], e["val"] = ("hist", [[a, b] for a, b in r.items()]) if ok else ("shape", [])
+            # any mapping from integral gaps to integral counts (numpy integers included)
+            ok = hasattr(r, "items") and all(core.as_int(a) is not None and core.as_int(b) is not None for a, b in r.items())
+            e["k"], e["val"] = ("hist", [[core.as_int(a), core.as_int(b)] for a, b in r.items()]) if ok else ("shape", [])
     except Exception as ex:
         e["k"], e["val"] = "exc:" + core.exc_name(ex), []
     es.append(e)
 
 
-def stats_entries(g, L, known, grid):
+def stats_entries(g, L, known, grid, removal=True):
+    """removal=False (accumulative graph): edge_contribution and snapshot_density are not called -- the first is
+    computed from the stored intervals, the second through time_slice (C06 covers removal-enabled graphs only); what
+    they mean for persisting interactions is not fixed by the statement"""
     es = []
     present = [n for n in known if g.has_node(L.node(n))]
     directed = g.is_directed()
@@ -61,9 +67,9 @@ def stats_entries(g, L, known, grid):
                     continue
                 _entry(es, "node_pair_uniformity", u, v, 0, lambda: g.node_pair_uniformity(cn(u), cn(v)), "rat", L)
                 _entry(es, "pair_density", u, v, 0, lambda: g.pair_density(cn(u), cn(v)), "rat", L)
-                if g.has_interaction(cn(u), cn(v)):
+                if removal and g.has_interaction(cn(u), cn(v)):
                     _entry(es, "edge_contribution", u, v, 0, lambda: g.edge_contribution(cn(u), cn(v)), "rat", L)
-        for t in range(grid[0], grid[1] + 1):
+        for t in (range(grid[0], grid[1] + 1) if removal else ()):
             _entry(es, "snapshot_density", 0, 0, t, lambda: g.snapshot_density(L.time(t)), "rat", L)
     _entry(es, "iet_all", 0, 0, 0, lambda: g.inter_event_time_distribution(), "hist", L)
     _entry(es, "iet_all", 0, 0, 0, lambda: core.dn.inter_event_time_distribution(g), "hist", L)
@@ -79,20 +85,21 @@ def stats_entries(g, L, known, grid):
 
 
 def job_stats(job):
-    seed, directed, calls, lab, known, grid = job
+    seed, directed, calls, lab, known, grid = job[:6]
+    removal = job[6] if len(job) > 6 else True
     rng = random.Random(seed)
     # a seeded share of the jobs asks for the statistics of the same object twice (after a prefix of its history, then
     # at the end): a statistic may never depend on what an earlier call computed
     k = rng.randint(1, len(calls) - 1) if len(calls) >= 2 and rng.random() < 0.4 else len(calls)
-    lines, g, L, known, grid = drivers.make_trace(directed, True, calls[:k], labeling=lab, rng=rng, known=known, grid=grid,
+    lines, g, L, known, grid = drivers.make_trace(directed, removal, calls[:k], labeling=lab, rng=rng, known=known, grid=grid,
                                                   ret_obj=True)
     if k < len(calls):
         lines.append({"op": "stats", "fork": False, "res": "ok", "obs": core.observe(g, L, known, grid),
-                      "es": stats_entries(g, L, known, grid)})
+                      "es": stats_entries(g, L, known, grid, removal)})
         drivers.extend_trace(lines, g, L, calls[k:], known, grid, rng)
     # keep only the last observation: the statistics are judged on the final state
     lines.append({"op": "stats", "fork": False, "res": "ok", "obs": core.observe(g, L, known, grid),
-                  "es": stats_entries(g, L, known, grid)})
+                  "es": stats_entries(g, L, known, grid, removal)})
     return lines
 
 
@@ -123,7 +130,7 @@ def run(prop, tier, seed):
     nst = 0
     for cfg in (["MC_core_3n.cfg", "MC_core_tiny.cfg"] if tier == "quick" else ["MC_core_3n.cfg", "MC_core_small.cfg"]):
         states, alphabet = mc_states(chk, cfg, ["InvRefines"])
-        states = [s for s in states if s["rem"] and s["hist"]]
+        states = [s for s in states if s["hist"]]        # removal-enabled and accumulative states
         nmax = max([n for c in alphabet for n in drivers.call_nodes(c)] or [2])
         known = list(range(1, nmax + 1))
         grid = drivers.grid_of(alphabet)
@@ -131,14 +138,15 @@ def run(prop, tier, seed):
             states = rng.sample(states, min(len(states), 250))
         for i, st in enumerate(states):
             nst += 1
-            jobs.append((rng.randrange(1 << 30), st["dir"], st["hist"], LABS[(i + seed) % len(LABS)], known, grid))
+            jobs.append((rng.randrange(1 << 30), st["dir"], st["hist"], LABS[(i + seed) % len(LABS)], known, grid, st["rem"]))
     for _ in range(80 if tier == "quick" else 2000):
         nn = rng.choice([3, 4, 5, 6])
         tmax = rng.choice([3, 5, 8, 12])
         calls = [c for c in drivers.rand_history(rng, nn, tmax, rng.randint(3, 20)) if _loop_free([c])]
         if not calls:
             continue
-        jobs.append((rng.randrange(1 << 30), rng.random() < 0.35, calls, rng.choice(LABS), drivers.known_of(calls), drivers.grid_of(calls)))
+        jobs.append((rng.randrange(1 << 30), rng.random() < 0.35, calls, rng.choice(LABS), drivers.known_of(calls), drivers.grid_of(calls),
+                     rng.random() < 0.75))
     chk.run_jobs(job_stats, jobs, "stats", chunk=500)
     chk.extra["bounded_states_replayed"] = nst
     chk.assumptions = [
